@@ -62,7 +62,8 @@ def readyInDispatch : List Tr → Bool
 on its way to its `InputHandler` (`readyInDispatch`). It fails only if the application registered a handler of
 its own for `InputReadySignal` and that handler re-enters the loop (`process_signals`, a modal screen, a
 blocking `get_user_input`, …) and a further line is typed and handed off in there: the inner line then reaches
-`input()` before the outer one. Programs without application handlers for `InputReadySignal` satisfy it. -/
+`input()` before the outer one. For applications without a handler for `InputReadySignal` (`NoReadyHandler`)
+the hypothesis is not needed at all (`C06_order_no_ready_handler`). -/
 def NoReadyReentry : List Tr → Prop
   | [] => True
   | .take _ s :: tr => (s.okReady = true → readyInDispatch tr = false) ∧ NoReadyReentry tr
@@ -76,6 +77,12 @@ instance instDecNoReadyReentry : (tr : List Tr) → Decidable (NoReadyReentry tr
   | .closeReq .. :: tr | .waitBegin .. :: tr | .waitEnd .. :: tr | .procBegin :: tr | .procEnd :: tr
   | .stackOp .. :: tr | .show .. :: tr | .refresh .. :: tr | .modalBegin .. :: tr | .modalEnd .. :: tr =>
     instDecNoReadyReentry tr
+
+/-- the static alternative to `NoReadyReentry`: the application registered no handler (before `run()`) for
+`InputReadySignal` -/
+def NoReadyHandler (c0 : Cfg) : Prop := ∀ h ∈ c0.L.handlers, h.1 ≠ .inputReady
+
+instance (c0 : Cfg) : Decidable (NoReadyHandler c0) := by unfold NoReadyHandler; infer_instance
 
 /-- **`ReadyInTop`** (the weaker, routing-only condition; *not* sufficient, see `C06_order_needs_NoReadyCovered`):
 every `InputReadySignal` (successful or not) was put into the level that was the innermost one at that moment. -/
